@@ -241,6 +241,36 @@ func c18Messages(kind string, seed uint64, budget int, lg *caseLog) c18Report {
 					report("C18/panic-in-ProcessMessage:"+topRepoFrame(stack), fmt.Sprintf("ProcessMessage panicked on %s of a %s: %v", mu.Label, g.Event, pan), wit)
 					continue
 				}
+				// two-message histories: a hostile opening proposal that was ACCEPTED registers whatever it
+				// carries (names, keys); the next message naming one of its participants meets that data
+				if err == nil && strings.HasPrefix(mu.Label, "opener:") {
+					for _, p := range w.Nodes {
+						for fi, follow := range []storage.Message{
+							world.SignMsg(p, mu.Msg.DkgRoundID, EvConfirm, mkReq(map[string]interface{}{"ParticipantId": p.Idx, "CreatedAt": now()}), ""),
+							{DkgRoundID: mu.Msg.DkgRoundID, Event: EvDecline, Data: mkReq(map[string]interface{}{"ParticipantId": p.Idx, "CreatedAt": now()}), SenderAddr: p.Name, Signature: []byte("junk")},
+						} {
+							lg.begin(fmt.Sprintf("%s off=%d node=%s %s then message %d from %s", kind, g.Offset, nd.Name, mu.Label, fi, p.Name))
+							rep.Cases++
+							var pan2 interface{}
+							var stack2 string
+							func() {
+								defer func() {
+									if x := recover(); x != nil {
+										pan2 = x
+										stack2 = string(debug.Stack())
+									}
+								}()
+								_ = nd.Svc.ProcessMessage(follow)
+							}()
+							w.Board.Truncate(len(all))
+							if pan2 != nil {
+								w2 := map[string]interface{}{"world": kind, "node": nd.Name, "first_message": "unauthenticated opening proposal, " + mu.Label, "first_data": trunc(string(mu.Msg.Data), 400), "second_message": follow.Event + " from " + p.Name, "stack": trunc(stack2, 1800)}
+								report("C18/panic-in-ProcessMessage:"+topRepoFrame(stack2), fmt.Sprintf("after the accepted opening proposal %s, a %s naming %s made ProcessMessage panic: %v", mu.Label, follow.Event, p.Name, pan2), w2)
+							}
+							distinct[fmt.Sprintf("%s|two-step|%s", kind, cls)] = true
+						}
+					}
+				}
 				if err != nil {
 					if diff := world.DiffMaps(before, after, world.Topic+"_offset"); len(diff) > 0 {
 						cls := classifyDiff(before, after, diff)
